@@ -311,6 +311,7 @@ func runCheck(id, tier, repo, keep string, writeEvidence bool) int {
 		cmdline := strings.ReplaceAll(bs.Cmd, "{repo}", repo)
 		c := exec.Command("bash", "-c", cmdline)
 		c.Dir = verifDir
+		c.Env = append(os.Environ(), "AXCHECK_TIER="+tier) // thorough: the suites explore several times as many cases
 		outB, err := c.Output()
 		var br boundedReport
 		lines := strings.Split(strings.TrimSpace(string(outB)), "\n")
